@@ -699,15 +699,19 @@ class Transformer:
                             f"unexpected 0:00 RULES string '{rules_string}'")
                         break
 
+                    # The delta offset is stored as a 4-bit code in units of
+                    # 900s (see below), so it cannot be finer than that even
+                    # when the STDOFF granularity is.
+                    delta_granularity = max(self.offset_granularity, 900)
                     rules_delta_seconds_truncated = truncate_to_granularity(
-                        rules_delta_seconds, self.offset_granularity)
+                        rules_delta_seconds, delta_granularity)
                     if rules_delta_seconds != rules_delta_seconds_truncated:
                         if self.strict:
                             valid = False
                             _add_reason(
                                 removed_zones, name,
                                 f"RULES delta offset '{rules_string}' must be "
-                                f"multiples of '{self.offset_granularity}' "
+                                f"multiples of '{delta_granularity}' "
                                 f"seconds")
                             break
                         else:
@@ -1307,23 +1311,26 @@ class Transformer:
                         f"invalid deltaOffset '{delta_offset}'")
                     break
 
-                # Truncate to requested granularity.
+                # Truncate to requested granularity. The delta is stored as a
+                # 4-bit code in units of 900s (see below), so it cannot be
+                # finer than that even when the STDOFF granularity is.
+                delta_granularity = max(self.offset_granularity, 900)
                 delta_seconds_truncated = truncate_to_granularity(
-                    delta_seconds, self.offset_granularity)
+                    delta_seconds, delta_granularity)
                 if delta_seconds != delta_seconds_truncated:
                     if self.strict:
                         valid = False
                         _add_reason(
                             removed_policies, name,
                             f"deltaOffset '{delta_offset}' must be "
-                            f"a multiple of '{self.offset_granularity}' "
+                            f"a multiple of '{delta_granularity}' "
                             f"seconds")
                         break
                     else:
                         _add_reason(
                             notable_policies, name,
                             f"deltaOffset '{delta_offset}' truncated to"
-                            f"a multiple of '{self.offset_granularity}' "
+                            f"a multiple of '{delta_granularity}' "
                             f"seconds")
 
                 # Check that delta seconds can fit in a 4-bit timeCode field
